@@ -1,0 +1,52 @@
+//! Drop-in replacement for the parts of `std::time` the library uses, with an optional
+//! per-thread virtual clock.
+
+use std::cell::Cell;
+use std::ops::Sub;
+
+pub use std::time::Duration;
+
+thread_local! {
+    static VIRTUAL_NS: Cell<Option<u64>> = Cell::new(None);
+}
+
+fn real_base() -> std::time::Instant {
+    use std::sync::OnceLock;
+    static BASE: OnceLock<std::time::Instant> = OnceLock::new();
+    *BASE.get_or_init(std::time::Instant::now)
+}
+
+/// Sets (or, with `None`, clears) the virtual clock of the current thread, in nanoseconds.
+pub fn set_virtual_ns(ns: Option<u64>) {
+    VIRTUAL_NS.with(|v| v.set(ns));
+}
+
+/// Returns the virtual clock of the current thread, if one is set.
+pub fn virtual_ns() -> Option<u64> {
+    VIRTUAL_NS.with(|v| v.get())
+}
+
+/// A point in time: nanoseconds on the virtual clock if one is set for this thread, otherwise
+/// nanoseconds of real monotonic time since the first use in this process.
+#[derive(Clone, Copy, Debug, PartialEq, Eq, PartialOrd, Ord)]
+pub struct Instant {
+    ns: u64,
+}
+
+impl Instant {
+    pub fn now() -> Self {
+        if let Some(ns) = virtual_ns() {
+            Self { ns }
+        } else {
+            Self { ns: (std::time::Instant::now() - real_base()).as_nanos() as u64 }
+        }
+    }
+}
+
+impl Sub<Instant> for Instant {
+    type Output = Duration;
+
+    fn sub(self, other: Instant) -> Duration {
+        Duration::from_nanos(self.ns.saturating_sub(other.ns))
+    }
+}
